@@ -33,7 +33,7 @@ def gen_bank(rng, now, i, feats):
         lsv = asv + rng.randrange(0, ONE // 4)
     dec = rng.choice([0, 2, 6, 6, 6, 8, 9])
     b = {"asv": asv, "lsv": lsv, "last_update": now, "dep": U64, "bor": U64, "tag": rng.choice([0, 0, 0, 1]),
-         "dec": dec, "flags": 0, "op_state": 1,
+         "dec": dec, "flags": rng.choice([0, 0, 0, 0, 4, 8, 16, 28, 64]), "op_state": 1,
          "ir": R.flat_ir() if rng.random() < 0.7 else R.slope_ir(rng),
          "awi": R.fxr(awi), "awm": R.fxr(awm), "lwi": R.fxr(lwi), "lwm": R.fxr(lwm), "tier": 0,
          "tavil": 0, "price": ONE, "tokprog": rng.choice([0, 0, 0, 0, 1]), "bps": 0, "maxfee": 0,
